@@ -291,6 +291,9 @@ func c17(c *wk.Ctx) {
 		r.Count("files", 1)
 		r.Violationf("C17|decode|outcome=process-aborted|cause="+cause, json.RawMessage(d.Desc), "decode mode aborted the process (exit %d) instead of printing the file: %s", d.Result.Exit, firstPanicLine(d.Result.Stderr))
 	}
+	if wk.ReplayOne(c, "c17files", nil, onDeath) {
+		return
+	}
 	n := c.N(600, 12000)
 	type job struct{ start, end int }
 	var jobs []job
